@@ -137,6 +137,9 @@ class C08(c06.C06):
     reach_probes = ["reach/elements_checked", "reach/uncached_passthrough_seen", "reach/attr_precedent_seen", "reach/failed_evaluations"]
     assumptions = ["lists are compared as sets", "tracegraph nodes are read as (object, key) tuples; static spaces only"]
 
+    swarm_fn = staticmethod(swarm)
+    weights = WEIGHTS
+
     def execute(self, ctx):
         c06.C06.execute(self, ctx)
 
